@@ -1,6 +1,6 @@
 (* C01 — explicit tree-automata inclusion is exact under every algorithm selection. Statements only. *)
 From Coq Require Import List NArith Bool.
-From V Require Import Sem Prod Incl TrimDefs TrimProofs Lang InclDefs InclProofs AntichainUp AntichainUpW DownIncl BinopDefs BinopProofs ReduceDefs ReduceProofs DownInclSim SharedTable DownInclCacheDefs DownInclCacheProofs DownInclOptDefs DownInclOptProofs NegCache.
+From V Require Import Sem Prod Incl TrimDefs TrimProofs Lang InclDefs InclProofs AntichainUp AntichainUpW AntichainUpSim DownIncl BinopDefs BinopProofs ReduceDefs ReduceProofs DownInclSim SharedTable DownInclCacheDefs DownInclCacheProofs DownInclOptDefs DownInclOptProofs NegCache.
 
 (* the verdict function every selection must compute (prepare by trimming, then decide) is exact *)
 Theorem C01_exact : forall v A B, incl_model v A B = true <-> (forall t, accepts A t -> accepts B t).
@@ -44,6 +44,28 @@ Proof. exact up_worklist_exact. Qed.
 Theorem C01_up_worklist_keyed_refuted :
   up_worklist_keyed kA kB 20 = Some true /\ incl_dec kA kB = false /\ up_worklist kA kB 20 = Some false.
 Proof. exact up_worklist_keyed_refuted. Qed.
+
+(* (A) upward inclusion WITH a simulation preorder: macro-states are kept minimal w.r.t. the relation (a state is not added below a
+   stored one, states below a new one are removed) and a popped pair is skipped when a processed pair with the same state of the smaller
+   automaton has a macro-state below its own. For every relation that is reflexive and transitive on the states of the bigger automaton,
+   keeps final states upward closed and lets a rule be replayed with one child replaced by a larger one (UpSim — what an upward
+   simulation induced by the identity provides), a run that ends returns the decider's verdict, for every fuel. (The two prunings that
+   compare states of the smaller automaton through the relation on the union automaton are not modelled.) *)
+Theorem C01_up_sim_refines : forall le B, UpSim le B -> forall A fuel b, up_worklist_sim le A B fuel = Some b -> b = incl_dec A B.
+Proof. exact up_worklist_sim_refines. Qed.
+Theorem C01_up_sim_exact : forall le A B fuel b, UpSim le B -> up_worklist_sim le A B fuel = Some b ->
+  (b = true <-> forall t, accepts A t -> accepts B t).
+Proof. exact up_worklist_sim_exact. Qed.
+(* the identity satisfies the hypothesis on every automaton; the hypothesis is decidable on a given automaton *)
+Theorem C01_up_sim_identity : forall A B fuel b, up_worklist_sim N.eqb A B fuel = Some b -> b = incl_dec A B.
+Proof. exact up_worklist_sim_identity. Qed.
+Theorem C01_up_sim_hypothesis_decidable : forall le B, upsim_b le B = true -> UpSim le B.
+Proof. exact upsim_b_sound. Qed.
+(* non-vacuity: a relation that is not the identity satisfies the hypothesis, the runs end, minimisation really removes a state *)
+Example C01_up_sim_example : UpSim us_le us_B /\ us_le 1 2 = true /\ us_le 2 1 = false /\
+  up_worklist_sim us_le us_A us_B 20 = Some true /\ up_worklist_sim us_le us_A2 us_B 20 = Some false /\
+  AntichainUpSim.minimize us_le (List.cons 1 (List.cons 2 List.nil))%N = (List.cons 2 List.nil)%N.
+Proof. exact upsim_example. Qed.
 
 (* (A) recursive downward algorithm (identity preorder, no caches): choice functions over the tuples of the bigger automaton,
    open goals on the call stack assumed (coinduction). Whatever the fuel, an answer is the truth; None = out of fuel. *)
@@ -125,3 +147,8 @@ Print Assumptions C01_neg_cache_wrong_side_refuted.
 Print Assumptions C01_up_worklist_refines.
 Print Assumptions C01_up_worklist_exact.
 Print Assumptions C01_up_worklist_keyed_refuted.
+Print Assumptions C01_up_sim_refines.
+Print Assumptions C01_up_sim_exact.
+Print Assumptions C01_up_sim_identity.
+Print Assumptions C01_up_sim_hypothesis_decidable.
+Print Assumptions C01_up_sim_example.
